@@ -1,7 +1,7 @@
 #!/bin/sh
 # thorough tier: the same rules on a VTA-refined call graph, plus the seeded-variant matrix of the property as a
 # self-test of the checker (each kept seed of the property is applied to a scratch copy of /repo's working tree outside
-# /repo and /verif, analysed, and removed). The exit status is the property check's; self-test results are informational.
+# /repo and /verif, analysed, and removed), and the refactoring corpus as a false-alarm self-test. The exit status is the property check's; self-test results are informational.
 set -u
 HERE="$(cd "$(dirname "$0")" && pwd)"
 PROP="$1"
@@ -12,5 +12,9 @@ if [ -d "$HERE/seeded" ]; then
     [ -f "$d/patch.diff" ] || continue
     "$HERE/tools/seedrun.sh" "${d%/}" "$PROP" | grep -E "^C[0-9]+-" | sed 's/^/selftest: /'
   done
+fi
+# false-alarm self-test: the behaviour-preserving refactorings must leave the check silent (summary line only)
+if [ -d "$HERE/refactors" ]; then
+  ls -d "$HERE"/refactors/*/ 2>/dev/null | xargs -P 8 -I{} "$HERE/tools/refacrun.sh" {} "$PROP" 2>/dev/null | grep -E " (silent|ALARM|APPLY-FAILED|BUILD-FAILED) " | awk '{c[$3]++} END {printf "selftest: refactorings"; for (k in c) printf " %s=%d", k, c[k]; printf "\n"}'
 fi
 exit $RC
